@@ -157,8 +157,13 @@ class Host(object):
 
 
 class StackWorld(object):
-    def __init__(self, specs, tcpcl_kwargs=None, udpcl_mtu=None, btpu_mtu=None):
+    def __init__(self, specs, tcpcl_kwargs=None, udpcl_mtu=None, btpu_mtu=None, netfault=None):
         ''' specs: per host (index from 1) dict(routes=[(regex, next index)], rx_routes=[(regex, action)]) '''
+        self.netfault = netfault      # impairment of the datagram networks (UDP, Ethernet), see _release
+        self._limbo = []
+        self.net_releases = []
+        self.net_duplicated = 0
+        self.net_reordered = 0
         bw.reset()
         dbus.RECORDER.reset()
         simudp.NET.reset()
@@ -192,12 +197,15 @@ class StackWorld(object):
         ''' Run network and processes until nothing moves.  :return: True if quiescent. '''
         for _ in range(rounds):
             moved = self.net.pump()
-            while simudp.NET.inflight:
-                simudp.NET.deliver(simudp.NET.inflight.pop(0))
-                moved = True
-            while simether.NET.inflight:
-                simether.NET.deliver(simether.NET.inflight.pop(0))
-                moved = True
+            for net in (simudp.NET, simether.NET):
+                if self.netfault:
+                    # an impaired datagram network: what is sent waits until the nodes have nothing else to do and is
+                    # then delivered duplicated and / or out of order (_release)
+                    self._limbo.extend((net, dgram) for dgram in net.inflight)
+                    del net.inflight[:]
+                while net.inflight:
+                    net.deliver(net.inflight.pop(0))
+                    moved = True
             for ctx in self.contexts():
                 for _i in range(50):
                     if not ctx.iterate():
@@ -207,9 +215,42 @@ class StackWorld(object):
                 # a UDPCL agent paces its datagrams with a timer: let time pass while one still has something to send
                 due = self._udpcl_busy_due()
                 if due is None:
+                    if self._limbo:
+                        self._release()
+                        continue
                     return True
                 simloop.advance_to(max(due, simloop.CLOCK.now_ms))
         return False
+
+    def _release(self):
+        ''' Deliver the datagrams / frames held back by the impaired network (``netfault``): 'dup' every one twice in
+        a row, 'dup-late' all of them and then all of them again, 'reverse' in reverse order, 'reverse-dup' in reverse
+        order and then once more in order, 'rotate' the first one last.  Nothing is lost and nothing is invented. '''
+        batch, self._limbo = self._limbo, []
+        fault = self.netfault
+        if fault == 'dup':
+            order = [item for item in batch for _ in (0, 1)]
+        elif fault == 'dup-late':
+            order = batch + batch
+        elif fault == 'reverse':
+            order = batch[::-1]
+        elif fault == 'reverse-dup':
+            order = batch[::-1] + batch
+        elif fault == 'rotate':
+            order = batch[1:] + batch[:1]
+        else:
+            raise ValueError('unknown netfault %r' % (fault,))
+        self.net_releases.append(len(batch))
+        if len(order) > len(batch):
+            self.net_duplicated += len(batch)
+        first = []
+        for item in order:
+            if not any(item is other for other in first):
+                first.append(item)
+        if len(first) != len(batch) or any(a is not b for a, b in zip(first, batch)):
+            self.net_reordered += 1
+        for net, dgram in order:
+            net.deliver(dgram)
 
     def _udpcl_busy_due(self):
         dues = []
@@ -335,13 +376,19 @@ def stack_ops():
     return st.lists(st.one_of(send, send, send, cut, cut, wait), min_size=3, max_size=10)
 
 
-def cases():
+NETFAULTS = ['dup', 'dup-late', 'reverse', 'reverse-dup', 'rotate']
+
+
+def cases(netfault=False):
+    ''' netfault: also draw an impairment of the datagram networks (for checks whose oracle allows a convergence layer
+    to hand a bundle over twice: C10, C06; not C18, which judges the adaptor against the transfers on the wire). '''
     from hypothesis import strategies as st
+    extra = {'netfault': st.sampled_from([None, None] + NETFAULTS)} if netfault else {}
     return st.fixed_dictionaries({'kind': st.just('stack'), 'ops': stack_ops(), 'keepalive': st.sampled_from([0, 0, 10]),
                                   'hops': st.lists(st.sampled_from(['tcpcl', 'tcpcl', 'udpcl', 'btpu']), min_size=2, max_size=2),
                                   'umtu': st.sampled_from([None, 100]), 'emtu': st.sampled_from([None, 100]),
                                   'rmtu': st.sampled_from([None, None, 150]),
-                                  'size': st.sampled_from([8, 8, 300])})
+                                  'size': st.sampled_from([8, 8, 300]), **extra})
 
 
 def drive(case, out):
@@ -356,8 +403,11 @@ def drive(case, out):
         dict(routes=[('^dtn://n1/', 1, hop12, rmtu), ('^dtn://n3/', 3, hop23, rmtu)],
              rx_routes=[('^dtn://n2/', 'deliver'), ('^dtn://n[13]/', 'forward')]),
         dict(routes=[('^dtn://n[12]/', 2, hop23, rmtu)], rx_routes=[('^dtn://n3/', 'deliver')]),
-    ], tcpcl_kwargs=dict(keepalive_time=case.get('keepalive', 0)), udpcl_mtu=case.get('umtu'), btpu_mtu=case.get('emtu'))
+    ], tcpcl_kwargs=dict(keepalive_time=case.get('keepalive', 0)), udpcl_mtu=case.get('umtu'), btpu_mtu=case.get('emtu'),
+        netfault=case.get('netfault'))
     out.label('stack-hops:%s+%s' % (hop12, hop23))
+    if case.get('netfault'):
+        out.label('stack-netfault:%s' % case['netfault'])
     if rmtu:
         out.label('stack-route-mtu')
     info = dict(sent={}, cut_after_traffic=False, resend_after_cut=False, closed=False)
